@@ -18,7 +18,7 @@ OPS_NEED_COPY = {'push_back_c', 'insert_c', 'insert_n', 'insert_range', 'insert_
                  'assign_il', 'assign_op_il', 'append_range', 'append_il', 'emplace'}
 OPS_ALIAS = ['push_back_c', 'emplace_back', 'insert_c', 'insert_n', 'emplace', 'resize_v']
 
-def ops_job(op, elem, n, cap, fmask=0, alias=0, afl=0, maxcnt=2, size=None, std='c++17', extra_defs=None, witness=None, tag='', maxsz=None, sizet=None):
+def ops_job(op, elem, n, cap, fmask=0, alias=0, afl=0, maxcnt=2, size=None, std='c++17', extra_defs=None, witness=None, tag='', maxsz=None, sizet=None, extra_clang=()):
     maxcap = max(2 * cap, cap + maxcnt + 2, 2)
     maxm = cap + maxcnt + 2
     defs = {'VF_ELEM': elem, 'VF_N': n, 'VF_CAP': cap, 'VF_OP': 'OP_' + op, 'VF_FMASK': fmask, 'VF_ALIAS': alias,
@@ -37,7 +37,7 @@ def ops_job(op, elem, n, cap, fmask=0, alias=0, afl=0, maxcnt=2, size=None, std=
     if op == 'shrink' and cap == n: w = [x for x in w if 'exceptional' not in x]   # inline: nothing can throw
     if op == 'at': w = ['out_of_range exit'] + (['normal return'] if cap > 0 else [])
     return Job(name, 'ops', defs, elems=[ELEM_IR[elem]], std=std, unwind=max(maxcap, maxm, 6) + 2, maxalloc=maxcap,
-               minalloc=n + 1, expect_witness=w,
+               minalloc=n + 1, expect_witness=w, extra_clang=list(extra_clang),
                desc='%s on small_vector<%s,%d> from any state with capacity %d%s%s' % (op, elem, n, cap, ' (inline)' if cap == n else ' (heap)',
                     ', faults kinds=%d' % fmask if fmask else ''))
 
@@ -55,7 +55,7 @@ OPS2_ALL = ['copy_ctor', 'move_ctor', 'copy_ctor_alloc', 'move_ctor_alloc', 'cop
             'assign_copy', 'assign_move', 'append_copy', 'append_move']
 OPS2_SAME_N = {'swap', 'nm_swap', 'copy_assign', 'move_assign', 'copy_ctor', 'move_ctor', 'copy_ctor_alloc', 'move_ctor_alloc'}
 
-def two_job(op, elem, na, nb, capa, capb, afl=0, ideq=1, fmask=0, nfaults=1, std='c++17', witness=None, extra_defs=None, tag='', followup=None, sizea=None, sizeb=None):
+def two_job(op, elem, na, nb, capa, capb, afl=0, ideq=1, fmask=0, nfaults=1, std='c++17', witness=None, extra_defs=None, tag='', followup=None, sizea=None, sizeb=None, extra_clang=()):
     if op in ('swap', 'nm_swap', 'copy_assign', 'move_assign') and na != nb: return None   # same-type only
     ctor = op.endswith('ctor') or op.endswith('ctor_alloc')
     if ctor: capa = na
@@ -70,7 +70,7 @@ def two_job(op, elem, na, nb, capa, capb, afl=0, ideq=1, fmask=0, nfaults=1, std
     if std != 'c++17': name += '-' + std.replace('+', 'p')
     w = ['normal return'] if witness is None else witness
     return Job(name, 'two', defs, elems=[ELEM_IR[elem]], std=std, unwind=max(maxcap, 6) + 2, maxalloc=maxcap, minalloc=min(na, nb) + 1,
-               expect_witness=w,
+               expect_witness=w, extra_clang=list(extra_clang),
                desc='%s: small_vector<%s,%d> (cap %d) <- small_vector<%s,%d> (cap %d), allocator flags %d, ids %s%s' % (
                    op, elem, na, capa, elem, nb, capb, afl, 'equal' if ideq else 'unequal', ', faults kinds=%d' % fmask if fmask else ''))
 
@@ -107,3 +107,17 @@ def rng_job(op, elem, n, cap, itk=0, fmask=0, nfaults=1, maxsz=None, length=3, a
     return Job(name, 'rng', defs, elems=[ELEM_IR[elem]], std=std, unwind=max(maxcap, cap + length + 2, 6) + 2, maxalloc=maxcap, minalloc=n + 1,
                expect_witness=w, desc='%s%s on small_vector<%s,%d>%s, length <= %d%s' % (op, ' (%s iterators)' % ITK_NAME[itk] if uses_range else '', elem, n,
                     '' if ctor else ' from any state with capacity %d' % cap, length, ', faults kinds=%d' % fmask if fmask else ''))
+
+def cmp_job(part, elem, na, nb, capa, capb, std='c++17', extra_clang=(), tag=''):
+    maxcap = max(capa, capb, 2) + 2
+    defs = {'VF_PART': part, 'VF_ELEM': elem, 'VF_NA': na, 'VF_NB': nb, 'VF_CAPA': capa, 'VF_CAPB': capb, 'VF_MAXCAP': maxcap}
+    name = 'cmp-p%d-%s-N%d.%d-c%d.%d%s' % (part, elem, na, nb, capa, capb, tag) + ('' if std == 'c++17' else '-' + std.replace('+', 'p'))
+    return Job(name, 'cmp', defs, elems=[ELEM_IR[elem]], std=std, unwind=max(maxcap, 6) + 2, maxalloc=maxcap, minalloc=min(na, nb) + 1,
+               expect_witness=['normal return'], extra_clang=list(extra_clang),
+               desc='%s: small_vector<%s,%d> (cap %d) vs small_vector<%s,%d> (cap %d), all lengths <= capacity and all 2^32 element values, %s' % (
+                   {0: 'relational operators', 1: 'erase(v,x)', 3: 'erase_if(v,pred)', 2: 'non-member begin..data, size, ssize, swap'}[part], elem, na, capa, elem, nb, capb, std))
+
+def nx_job(std='c++17', extra_clang=(), tag=''):
+    name = 'nx-' + std.replace('+', 'p') + tag
+    return Job(name, 'nx', {}, elems=[], std=std, unwind=4, maxalloc=2, minalloc=0, expect_witness=['normal return'], extra_clang=list(extra_clang),
+               desc='noexcept / iterator / nested-type table: 8 element trait combinations x N in {0,2} x 6 allocators x 15 facts, %s' % std)
